@@ -5,7 +5,8 @@ from .. import core, pilgen as PG
 MODULES = ['DsdVerif.Props.C13']
 GEN_FILES = ['Grammars']
 THEOREM_NAMES = ['run_fuel_mono', 'run_fuel_mono_false', 'word_munch', 'expandTabs_id', 'dl_domain_rt', 'dl_domain_dtype_rt', 'sl_domain_rt',
-                 'sl_domain_len_rt', 'dl_domain_comment_rt', 'dl_domain_missing_assign_rejected']
+                 'sl_domain_len_rt', 'dl_domain_comment_rt', 'dl_domain_missing_assign_rejected', 'comp_domain_rt', 'resting_rt',
+                 'kernel_rt', 'kernel_extra_close_rejected', 'kernel_missing_name_rejected']
 THEOREMS = ['Dsd.C13.' + t for t in THEOREM_NAMES]
 ASSUMPTIONS = [
     'pyparsing 3.3.2 is modelled by a hand-written interpreter (Model/Pyparsing.lean: whitespace/comment skipping, Word maximal munch, '
@@ -20,8 +21,11 @@ MANIFEST = {
     'text': 'Partial. The grammar is regenerated from pil_parser.py into a Lean term interpreted by a model of pyparsing. Proved for the '
             'regenerated grammar, for identifiers / numbers / constraints of any length and any amount of blanks: dl_domain_rt (three '
             'keyword aliases, both assignment signs, optional star), dl_domain_dtype_rt, sl_domain_rt, sl_domain_len_rt, '
-            'dl_domain_comment_rt (trailing comment, no final newline), dl_domain_missing_assign_rejected, plus word_munch and '
-            'expandTabs_id. The other statement kinds (strands, both complex notations, kernel patterns, reactions, macrostates), '
+            'dl_domain_comment_rt (trailing comment, no final newline), comp_domain_rt (strand / sup-sequence, any number of domains), '
+            'resting_rt (any number of members), kernel_rt (name = kernel_string parses to exactly the token forest of the kernel '
+            'string, for any nesting depth, any number of strands and empty loops, for names without a statement-keyword prefix), the '
+            'rejections dl_domain_missing_assign_rejected, kernel_extra_close_rejected, kernel_missing_name_rejected, plus word_munch '
+            'and expandTabs_id. Strand-notation complexes, reactions, concentrations, arbitrary layouts of the list statements, '
             'document concatenation, file = string and history independence are NOT theorems: they are decided on the real parser by a '
             'reference renderer over grammar-generated token trees in random layouts, and the model is compared with pyparsing on the '
             'same texts, four negative families and random mutations.',
